@@ -49,8 +49,9 @@ def invalid_variants(rng: Rng, spec, cfg):
     if cfg['multiclient']:
         v = clone(); v['multiclient']['claim'] = 'NoSuchEvent'; v['fault'] = 'mc-unknown-claim'; out.append(v)
         v = clone(); v['multiclient']['grant'] = ['NoSuchValue']; v['fault'] = 'mc-unknown-grant'; out.append(v)
+        v = clone(); v['multiclient']['grant'] = [spec['mc']['enum'][-1]] + list(cfg['multiclient']['grant']); v['fault'] = 'mc-qualified-grant'; out.append(v)
         v = clone(); v['multiclient']['port'] = 'nosuchport'; v['fault'] = 'mc-unknown-port'; out.append(v)
-    return rng.shuffle(out)[:5]
+    return rng.shuffle(out)[:6]
 
 
 def near_copy(rng: Rng, spec):
